@@ -46,6 +46,18 @@ Theorem C01_obligation_partial : forall ip6 c evs,
 Proof. exact Server_proofs.obligation_partial. Qed.
 Print Assumptions C01_obligation_partial.
 
+(* stalled past the request timeout (judged from the schedule alone, not from the implementation's own timer flag): one
+   response and a close *)
+From NV Require Proofs.C01_timeout.
+Theorem C01_timeout_obligation_partial : forall ip6 c evs,
+  valid_reads evs (run ip6 (fun _ => c_hres c) (c_mw c) (c_upload c) (c_ip c) (c_fp c) init evs) false = true ->
+  existsb (fun a => match a with AOutOfModel => true | _ => false end)
+          (flat (run ip6 (fun _ => c_hres c) (c_mw c) (c_upload c) (c_ip c) (c_fp c) init evs)) = false ->
+  Spec.C01.clause_timeout_obligation ip6 c evs
+    (run ip6 (fun _ => c_hres c) (c_mw c) (c_upload c) (c_ip c) (c_fp c) init evs) = true.
+Proof. exact C01_timeout.timeout_obligation_partial. Qed.
+Print Assumptions C01_timeout_obligation_partial.
+
 (* ---- the same theorems about the code: `gen_run` / `gen_final` / `gen_step` / `cl_data_received` are the connection's
    transition function assembled from the translation of /repo/src/nauyaca/server/protocol.py (coq/Gen/ServerGen.v,
    regenerated from the working tree on every run; event dispatch in coq/Equiv/ServerLoop.v).  `reenc_ok` is the one
